@@ -120,6 +120,14 @@ CHECKS = {
                      'line break.',
                 note='TLC; recorder. Crashes of the (unfinished) indentation-stack logic are listed as known findings by crash site.',
                 ref='2.5, 3 C20'),
+    'C14': dict(level='exploration', tech='TLA+ generators Bindings / SemCtx (TLC-enumerated) + relation FactsVerdict (spec Relational) evaluated by TLC on (parso helper facts, CPython ast facts) pairs',
+                text='For the binding-construct x target-shape x context matrix, SemCtx statements and whole stdlib modules (kept iff '
+                     'CPython parses them and parso has no error node) nine kinds of facts - definitions by position, per-scope '
+                     'functions/classes/imports, parameters (name, star kind, default, annotation), return annotation, '
+                     'generator-ness, return and raise statements, import paths/levels/aliases/star, docstring node - are extracted '
+                     'from parso\'s helpers and from the ast; TLC requires the fact sets to be equal kind by kind.',
+                note='CPython ast of the interpreter running the harness; docstrings that are not one plain literal are outside the '
+                     'claim; the fact extractors (harness/facts.py) are trusted.', ref='2.10, 3 C14'),
     'C15': dict(level=MC, tech='TLA+ spec Lines (line scanner + PEP 263 header decision) evaluated by TLC on real split_lines / python_bytes_to_unicode results; generators Strings and Headers enumerated by TLC',
                 text='Exhaustive in the abstract alphabets: every string up to 5 (quick) / 6 (thorough) over all str.splitlines '
                      'separators plus an ordinary character, and one trace per code point, validated against the TLA+ scanner '
